@@ -1,5 +1,11 @@
 SPECIFICATION Spec
 CONSTANTS MaxLen = 2
   Vocabulary <- SmallElements
+INVARIANT OpEqDen
+INVARIANT RunTimeWins
+INVARIANT AffixOnce
+INVARIANT PendingOnce
+PROPERTY NameStable
+PROPERTY AffixConsumed
 INVARIANT Emitted
 CHECK_DEADLOCK FALSE
